@@ -277,6 +277,8 @@ def plan_generate(ctx, rnd, cid0):
         g += [{"what": "elgamal", "bits": b} for b in (rnd.choice([161, 176, 192]), 256, rnd.choice([224, 320, 384]))]
         for c in NIST + ["Ed25519", "Ed448", "Curve25519", "Curve448"]:
             g += [{"what": "ecc", "curve": c} for _ in range(1 if c in ("P-521", "Ed448", "Curve448") else 3)]
+    # entropy chosen so that the first two prime candidates give a private exponent below 2^(nlen/2) (FIPS 186-4 B.3.1 (3): new primes are to be drawn)
+    g.append({"what": "rsa", "bits": 1024, "e": 65537, "tape": "small-d"})
     for i, it in enumerate(g):
         it["cid"] = cid0 + i + 1
     return g
@@ -333,7 +335,7 @@ def brief(t):
     """a record written out for a reader: the call and its outcome (numbers in hexadecimal)"""
     d = {"family": family_of(t), "api": t["api"], "outcome": "key" if t["exc"] == "none" else t["exc"]}
     if t["fam"] == "gen":
-        d["request"] = {k: (sgn(t[k]) if k == "e" else t[k]) for k in ("bits", "e", "curve", "hasdomain", "kid", "corr") if k in t}
+        d["request"] = {k: (sgn(t[k]) if k == "e" else t[k]) for k in ("bits", "e", "curve", "hasdomain", "kid", "corr", "entropy") if k in t}
         d["tape_bytes_consumed"] = t["tape"]
     else:
         d.update({"form": t["form"], "variant": t["variant"], "base_key": t["kid"], "corruptions": t["corr"], "model_class": t["cls"], "model_failed_step": t["mwhy"]})
@@ -349,7 +351,7 @@ def brief(t):
 def identity(t):
     """what makes a record distinct"""
     if t["fam"] == "gen":
-        return ["gen", t["what"], t.get("bits"), t.get("e"), t.get("curve"), t.get("kid"), t.get("corr"), t["key"]]
+        return ["gen", t["what"], t.get("bits"), t.get("e"), t.get("curve"), t.get("kid"), t.get("corr"), t.get("entropy"), t["key"]]
     return [t["fam"], t.get("curve"), t["kid"], t["form"], t["variant"], t["off"], t.get("seed"), t.get("par"), t.get("junk")]
 
 
